@@ -37,7 +37,9 @@ func VerifRun_C04g() {
 	n1 := string([]byte{byte(verifConcretize(int(verifByteIn("n1", "ab"))))})
 	n2 := string([]byte{byte(verifConcretize(int(verifByteIn("n2", "ab"))))})
 	cu, ac, lo := "Cu"+n1, "Ac"+n2, "Lo"+n1
-	types := "---@alias " + cu + " number\n\n---@class " + ac + "\n---@field bal " + cu + "\nlocal " + ac + " = {}\nreturn " + ac + "\n"
+	// the declaring lines may carry a description after the name, in ASCII or not
+	desc := []string{"", " @account data", " @\xe7\x8e\xa9\xe5\xae\xb6\xe6\x95\xb0\xe6\x8d\xae"}[verifConcretize(verifRange("description", 0, 2))]
+	types := "---@alias " + cu + " number\n\n---@class " + ac + desc + "\n---@field bal " + cu + desc + "\nlocal " + ac + " = {}\nreturn " + ac + "\n"
 	use := "-- header\n-- header\n-- header\n-- header\n-- header\n-- header\n-- header\n---@alias " + lo + " string\n\n---@class Sv" + n2 + " : " + ac + "\n---@field cur " + lo + "\nlocal Sv = {}\n\n---@type " + cu + "\nlocal v = 1\n---@param p " + ac + "\n---@return " + lo + "\nfunction f(p) return v end\n"
 	fa, fb := root+"/types.lua", root+"/use.lua"
 	verifVFSPut(fa, []byte(types))
